@@ -40,7 +40,12 @@ pattern), connection ids are pairwise distinct (within a scenario, and across 2.
 Pending, the peer reads a generated number of bytes, the future is polled again and then dropped; \
 afterwards a second call is sent normally while the peer reads everything. Oracle: the peer's \
 byte stream is exactly frame(A) NUL frame(B) NUL, or frame(B) NUL if nothing of A had been written \
-(whole frames only, each at most once). Non-trivial = a message larger than 208 KiB in flight \
+(whole frames only, each at most once). Cancellation history = 2..6 sends on one connection, each \
+either driven to completion (the peer drains while it is Pending) or polled 1..4 times with the \
+peer reading a generated number of bytes in between and then dropped, the last one completing; \
+Served scenario = zlink's own Server on a real listener (bound, or built from an inherited descriptor) in its own thread under tokio or smol, serving 1..6 real client connections driven under tokio (current / multi-thread) or smol - also the other runtime than the server's - each working through 1..6 operations {call, call answered by the declared error, oneway call, chain of 1..5 pipelined calls, streaming call with 1..5 items} with parameters of 1 B..530 KB; oracle: every client gets exactly the replies the service gives (ids, sequence numbers, every byte of the position-dependent pattern, continues flags), a oneway call gets nothing, and a final call is still answered. Cancellation-history \
+oracle: the peer's stream consists of whole frames that form a subsequence of the sent frames \
+(each at most once, in order) and contains every frame whose send completed. Non-trivial = a message larger than 208 KiB in flight \
 with traffic in the other direction, or a cancellation after a partial write; distinct by hash of \
 the scenario.";
 
@@ -163,6 +168,36 @@ pub enum Scenario {
     /// pairs for the first few, on in-memory transports for the rest): every identifier handed
     /// out in the process during the scenario must be distinct.
     Ids { threads: usize, per_thread: usize },
+    /// A history of sends on one connection of which any may be abandoned: every step sends a
+    /// call of `size` bytes; `polls = None` drives the send to completion while the peer drains,
+    /// `polls = Some(k)` polls the send future at most k times with the peer reading `peer_reads`
+    /// bytes in between, then drops it (finished or not). The last step always completes.
+    CancelHistory { rt: Rt, steps: Vec<CancelStep> },
+    /// zlink's own `Server` on a real listener (runtime `server_rt`, in its own thread) serving
+    /// 1..6 real client connections (runtime `client_rt`, possibly the other one), each working
+    /// through a list of operations; every client must get exactly the replies the service gives.
+    Served { server_rt: Rt, client_rt: Rt, transport: Transport, clients: Vec<Vec<COp>> },
+}
+
+#[derive(Debug, Clone, PartialEq, Eq, Hash, Serialize, Deserialize)]
+pub enum COp {
+    /// call_method(Echo) with a parameter of this many bytes
+    Echo(usize),
+    /// a call the service answers with its declared error
+    Fail,
+    /// an Echo call flagged oneway (no reply), of this many bytes
+    Oneway(usize),
+    /// a chain of Echo calls (one write), sizes of the parameters
+    Batch(Vec<usize>),
+    /// a `more` call answered by a stream of `n` replies of `size` bytes each
+    Sub { n: u32, size: usize },
+}
+
+#[derive(Debug, Clone, PartialEq, Eq, Hash, Serialize, Deserialize)]
+pub struct CancelStep {
+    pub size: usize,
+    pub polls: Option<u8>,
+    pub peer_reads: usize,
 }
 
 fn run_ids(threads: usize, per_thread: usize) -> Result<(bool, usize), String> {
@@ -449,6 +484,380 @@ fn judge_cancel(size: usize, second_size: usize, received: &[u8], partial: usize
     ))
 }
 
+/// Returns (everything the peer received, per step: did the send complete, number of steps that
+/// were abandoned while part of the connection's buffer was on the wire).
+async fn cancel_history_core<S: Socket>(mut conn: Connection<S>, mut peer: StdUnixStream, steps: &[CancelStep], pause: Pause) -> Result<(Vec<u8>, Vec<bool>, usize), String> {
+    let mut received = Vec::new();
+    let mut completed = Vec::new();
+    let mut partial_abandons = 0usize;
+    // bytes handed to send operations so far (frames incl. terminators), to recognise a partial write
+    let mut submitted = 0usize;
+    for (i, st) in steps.iter().enumerate() {
+        let s = pattern(i, st.size);
+        let call = Call::new(MethodA::Echo { s: &s, n: i as i64 });
+        submitted += serde_json::to_vec(&call).map_err(|e| e.to_string())?.len() + 1;
+        let fut = conn.send_call(&call);
+        let mut fut = std::pin::pin!(fut);
+        let mut done = false;
+        match st.polls {
+            None => {
+                // to completion; the peer drains whenever the send is Pending
+                for _ in 0..100_000 {
+                    match futures_util::poll!(fut.as_mut()) {
+                        std::task::Poll::Ready(r) => {
+                            r.map_err(|e| format!("send_call {i}: {e:?}"))?;
+                            done = true;
+                            break;
+                        }
+                        std::task::Poll::Pending => {
+                            received.extend(drain_nonblocking(&mut peer, 1 << 20));
+                            pause().await;
+                        }
+                    }
+                }
+                if !done {
+                    return Err(format!("send_call {i} did not complete although the peer kept reading (inconclusive-looking stall)"));
+                }
+            }
+            Some(k) => {
+                for round in 0..k.max(1) {
+                    match futures_util::poll!(fut.as_mut()) {
+                        std::task::Poll::Ready(r) => {
+                            r.map_err(|e| format!("send_call {i}: {e:?}"))?;
+                            done = true;
+                            break;
+                        }
+                        std::task::Poll::Pending => {
+                            if round == 0 && st.peer_reads > 0 {
+                                received.extend(drain_nonblocking(&mut peer, st.peer_reads));
+                            }
+                            pause().await;
+                        }
+                    }
+                }
+            }
+        }
+        completed.push(done);
+        if !done {
+            // the future is dropped here; what reached the kernel so far?
+            received.extend(drain_nonblocking(&mut peer, usize::MAX));
+            if received.len() < submitted && received.last().is_some_and(|&b| b != 0) {
+                partial_abandons += 1;
+            }
+        }
+    }
+    peer.set_nonblocking(false).map_err(|e| e.to_string())?;
+    drop(conn);
+    let mut rest = Vec::new();
+    peer.read_to_end(&mut rest).map_err(|e| e.to_string())?;
+    received.extend(rest);
+    Ok((received, completed, partial_abandons))
+}
+
+fn judge_cancel_history(steps: &[CancelStep], received: &[u8], completed: &[bool]) -> Result<(), String> {
+    let frames: Vec<Vec<u8>> = steps
+        .iter()
+        .enumerate()
+        .map(|(i, st)| {
+            let s = pattern(i, st.size);
+            serde_json::to_vec(&Call::new(MethodA::Echo { s: &s, n: i as i64 })).unwrap()
+        })
+        .collect();
+    let describe = || {
+        let pieces: Vec<usize> = received.split(|&b| b == 0).map(|f| f.len()).collect();
+        format!("sent frames of {:?} bytes (completed: {completed:?}); the peer received {} bytes in NUL-separated pieces of {:?} bytes", frames.iter().map(|f| f.len()).collect::<Vec<_>>(), received.len(), pieces)
+    };
+    if !received.is_empty() && received.last() != Some(&0) {
+        return Err(format!("the peer's stream ends inside a frame: {}", describe()));
+    }
+    let mut got = received.split(|&b| b == 0).collect::<Vec<_>>();
+    got.pop(); // the empty piece after the last terminator
+    // whole frames only, each at most once, in order: the received pieces are a subsequence of
+    // the sent frames; every completed send must be there
+    let mut next = 0usize;
+    let mut seen = vec![false; frames.len()];
+    for (k, piece) in got.iter().enumerate() {
+        match (next..frames.len()).find(|&j| frames[j].as_slice() == *piece) {
+            Some(j) => {
+                seen[j] = true;
+                next = j + 1;
+            }
+            None => return Err(format!("piece {k} ({} bytes) is not one of the frames still to come (corrupted, duplicated or out of order): {}", piece.len(), describe())),
+        }
+    }
+    for (j, c) in completed.iter().enumerate() {
+        if *c && !seen[j] {
+            return Err(format!("the send of frame {j} completed but the peer never received it: {}", describe()));
+        }
+    }
+    Ok(())
+}
+
+fn run_cancel_history(rt: Rt, steps: &[CancelStep]) -> Result<(bool, usize), String> {
+    let (a, peer) = StdUnixStream::pair().map_err(|e| e.to_string())?;
+    let (received, completed, partial) = match rt {
+        Rt::Smol => smol::block_on(async {
+            a.set_nonblocking(true).map_err(|e| e.to_string())?;
+            let a = smol::Async::new(a).map_err(|e| e.to_string())?;
+            cancel_history_core(Connection::new(zlink_smol::unix::Stream::from(a)), peer, steps, smol_pause).await
+        })?,
+        _ => {
+            let rt = tokio::runtime::Builder::new_current_thread().enable_all().build().map_err(|e| e.to_string())?;
+            rt.block_on(async {
+                a.set_nonblocking(true).map_err(|e| e.to_string())?;
+                let a = tokio::net::UnixStream::from_std(a).map_err(|e| e.to_string())?;
+                cancel_history_core(Connection::new(zlink_tokio::unix::Stream::from(a)), peer, steps, tokio_pause).await
+            })?
+        }
+    };
+    judge_cancel_history(steps, &received, &completed)?;
+    Ok((partial > 0, partial))
+}
+
+// ---- zlink's server on real sockets ----
+
+#[derive(Debug, Serialize, Deserialize)]
+#[serde(tag = "method", content = "parameters")]
+enum E2eMethod<'a> {
+    #[serde(rename = "org.e2e.Echo")]
+    Echo { id: u32, pad: &'a str },
+    #[serde(rename = "org.e2e.Fail")]
+    Fail { id: u32 },
+    #[serde(rename = "org.e2e.Sub")]
+    Sub { id: u32, n: u32, size: u32 },
+}
+
+#[derive(Debug, Clone, PartialEq, Serialize, Deserialize)]
+struct E2eReply {
+    id: u32,
+    seq: u32,
+    pad: String,
+}
+
+#[derive(Debug, Clone, PartialEq, zlink_core::ReplyError)]
+#[zlink(interface = "org.e2e", crate = "zlink_core")]
+enum E2eError {
+    Failed { id: u32 },
+}
+
+struct E2eService;
+
+impl zlink_core::Service for E2eService {
+    type MethodCall<'de> = E2eMethod<'de>;
+    type ReplyParams<'ser> = E2eReply;
+    type ReplyStreamParams = E2eReply;
+    type ReplyStream = futures_util::stream::Iter<std::vec::IntoIter<Reply<E2eReply>>>;
+    type ReplyError<'ser> = E2eError;
+
+    async fn handle<'ser>(
+        &'ser mut self,
+        call: Call<Self::MethodCall<'_>>,
+    ) -> zlink_core::service::MethodReply<Self::ReplyParams<'ser>, Self::ReplyStream, Self::ReplyError<'ser>> {
+        use zlink_core::service::MethodReply;
+        match *call.method() {
+            E2eMethod::Echo { id, pad } => MethodReply::Single(Some(E2eReply { id, seq: 0, pad: pad.to_string() })),
+            E2eMethod::Fail { id } => MethodReply::Error(E2eError::Failed { id }),
+            E2eMethod::Sub { id, n, size } => {
+                let items: Vec<_> = (0..n).map(|seq| Reply::new(Some(E2eReply { id, seq, pad: pattern(seq as usize + 77, size as usize) })).set_continues(Some(seq + 1 < n))).collect();
+                MethodReply::Multi(futures_util::stream::iter(items))
+            }
+        }
+    }
+}
+
+fn check_echo(what: &str, r: zlink_core::Result<Result<Reply<E2eReply>, E2eError>>, id: u32, idx: usize, size: usize, cont: Option<bool>) -> Result<(), String> {
+    match r {
+        Ok(Ok(rep)) => {
+            let c = rep.continues();
+            match rep.into_parameters() {
+                Some(p) if p.id == id && p.pad == pattern(idx, size) && c == cont => Ok(()),
+                Some(p) => Err(format!("{what}: expected the reply to call {id} with {size} pattern bytes and continues {cont:?}, got id {} seq {} with {} bytes (equal: {}) continues {c:?}", p.id, p.seq, p.pad.len(), p.pad == pattern(idx, size))),
+                None => Err(format!("{what}: reply without parameters")),
+            }
+        }
+        other => Err(format!("{what}: expected a success reply, got {}", vcommon::ev::truncate(&format!("{other:?}"), 200))),
+    }
+}
+
+async fn served_client<S: Socket>(mut conn: Connection<S>, ops: &[COp]) -> Result<(), String> {
+    use futures_util::StreamExt;
+    let mut id = 0u32;
+    for (k, op) in ops.iter().chain([&COp::Echo(9)]).enumerate() {
+        match op {
+            COp::Echo(size) => {
+                id += 1;
+                let pad = pattern(id as usize, *size);
+                let call = Call::new(E2eMethod::Echo { id, pad: &pad });
+                let r = conn.call_method::<_, E2eReply, E2eError>(&call).await;
+                // server replies carry an explicit continues:false
+                check_echo(&format!("op {k} Echo"), r, id, id as usize, *size, Some(false))?;
+            }
+            COp::Fail => {
+                id += 1;
+                let call = Call::new(E2eMethod::Fail { id });
+                match conn.call_method::<_, E2eReply, E2eError>(&call).await {
+                    Ok(Err(E2eError::Failed { id: got })) if got == id => {}
+                    other => return Err(format!("op {k} Fail: expected the declared error for call {id}, got {}", vcommon::ev::truncate(&format!("{other:?}"), 200))),
+                }
+            }
+            COp::Oneway(size) => {
+                id += 1;
+                let pad = pattern(id as usize, *size);
+                let call = Call::new(E2eMethod::Echo { id, pad: &pad }).set_oneway(true);
+                conn.send_call(&call).await.map_err(|e| format!("op {k} Oneway: {e:?}"))?;
+            }
+            COp::Batch(sizes) => {
+                let first = id + 1;
+                let pads: Vec<String> = sizes.iter().enumerate().map(|(j, s)| pattern((first as usize) + j, *s)).collect();
+                let calls: Vec<_> = pads.iter().enumerate().map(|(j, p)| Call::new(E2eMethod::Echo { id: first + j as u32, pad: p })).collect();
+                id += sizes.len() as u32;
+                let mut chain = conn.chain_call::<_, E2eReply, E2eError>(&calls[0]).map_err(|e| format!("op {k} Batch: {e:?}"))?;
+                for c in &calls[1..] {
+                    chain = chain.append(c).map_err(|e| format!("op {k} Batch: {e:?}"))?;
+                }
+                let stream = chain.send().await.map_err(|e| format!("op {k} Batch send: {e:?}"))?;
+                let mut stream = std::pin::pin!(stream);
+                for (j, s) in sizes.iter().enumerate() {
+                    let item = stream.next().await.ok_or_else(|| format!("op {k} Batch: the reply stream ended after {j} of {} replies", sizes.len()))?;
+                    check_echo(&format!("op {k} Batch reply {j}"), item, first + j as u32, first as usize + j, *s, Some(false))?;
+                }
+                if stream.next().await.is_some() {
+                    return Err(format!("op {k} Batch: the reply stream yielded more than {} replies", sizes.len()));
+                }
+            }
+            COp::Sub { n, size } => {
+                id += 1;
+                let call = Call::new(E2eMethod::Sub { id, n: *n, size: *size as u32 }).set_more(true);
+                conn.send_call(&call).await.map_err(|e| format!("op {k} Sub: {e:?}"))?;
+                for seq in 0..*n {
+                    let r = conn.receive_reply::<E2eReply, E2eError>().await;
+                    match r {
+                        Ok(Ok(rep)) => {
+                            let c = rep.continues();
+                            let p = rep.into_parameters().ok_or_else(|| format!("op {k} Sub item {seq}: no parameters"))?;
+                            if p.id != id || p.seq != seq || p.pad != pattern(seq as usize + 77, *size) || c != Some(seq + 1 < *n) {
+                                return Err(format!("op {k} Sub: expected item {seq} of call {id} ({size} bytes, continues {}), got id {} seq {} with {} bytes continues {c:?}", seq + 1 < *n, p.id, p.seq, p.pad.len()));
+                            }
+                        }
+                        other => return Err(format!("op {k} Sub item {seq}: {}", vcommon::ev::truncate(&format!("{other:?}"), 200))),
+                    }
+                }
+            }
+        }
+    }
+    Ok(())
+}
+
+fn run_served(server_rt: Rt, client_rt: Rt, transport: Transport, clients: &[Vec<COp>], tag: u64) -> Result<(bool, usize), String> {
+    use std::sync::atomic::{AtomicBool, Ordering};
+    let path = sock_path(tag);
+    let _ = std::fs::remove_file(&path);
+    // the listening socket exists before any client connects
+    let std_l = std::os::unix::net::UnixListener::bind(&path).map_err(|e| e.to_string())?;
+    let fd: OwnedFd = std_l.into();
+    let stop = std::sync::Arc::new(AtomicBool::new(false));
+    let stop2 = stop.clone();
+    let (ready_tx, ready_rx) = mpsc::channel::<Result<(), String>>();
+    let path2 = path.clone();
+    let server = std::thread::Builder::new()
+        .name("c19-server".into())
+        .spawn(move || -> Result<(), String> {
+            async fn until_stopped(stop: std::sync::Arc<AtomicBool>, pause: Pause) {
+                while !stop.load(Ordering::SeqCst) {
+                    pause().await;
+                }
+            }
+            match server_rt {
+                Rt::Smol => smol::block_on(async {
+                    let listener = if transport == Transport::FromFd {
+                        zlink_smol::unix::Listener::try_from(fd).map_err(|e| format!("try_from(fd): {e:?}"))
+                    } else {
+                        drop(fd);
+                        let _ = std::fs::remove_file(&path2);
+                        zlink_smol::unix::bind(&path2).map_err(|e| format!("bind: {e:?}"))
+                    };
+                    let listener = match listener {
+                        Ok(l) => {
+                            let _ = ready_tx.send(Ok(()));
+                            l
+                        }
+                        Err(e) => {
+                            let _ = ready_tx.send(Err(e.clone()));
+                            return Err(e);
+                        }
+                    };
+                    let run = zlink_core::Server::new(listener, E2eService).run();
+                    match futures_util::future::select(std::pin::pin!(run), std::pin::pin!(until_stopped(stop2, smol_pause))).await {
+                        futures_util::future::Either::Left((r, _)) => Err(format!("Server::run returned {r:?}")),
+                        futures_util::future::Either::Right(_) => Ok(()),
+                    }
+                }),
+                _ => {
+                    let rt = tokio::runtime::Builder::new_current_thread().enable_all().build().map_err(|e| e.to_string())?;
+                    rt.block_on(async {
+                        let listener = if transport == Transport::FromFd {
+                            zlink_tokio::unix::Listener::try_from(fd).map_err(|e| format!("try_from(fd): {e:?}"))
+                        } else {
+                            drop(fd);
+                            let _ = std::fs::remove_file(&path2);
+                            zlink_tokio::unix::bind(&path2).map_err(|e| format!("bind: {e:?}"))
+                        };
+                        let listener = match listener {
+                            Ok(l) => {
+                                let _ = ready_tx.send(Ok(()));
+                                l
+                            }
+                            Err(e) => {
+                                let _ = ready_tx.send(Err(e.clone()));
+                                return Err(e);
+                            }
+                        };
+                        let run = zlink_core::Server::new(listener, E2eService).run();
+                        match futures_util::future::select(std::pin::pin!(run), std::pin::pin!(until_stopped(stop2, tokio_pause))).await {
+                            futures_util::future::Either::Left((r, _)) => Err(format!("Server::run returned {r:?}")),
+                            futures_util::future::Either::Right(_) => Ok(()),
+                        }
+                    })
+                }
+            }
+        })
+        .map_err(|e| e.to_string())?;
+    let outcome = (|| -> Result<(), String> {
+        ready_rx.recv_timeout(Duration::from_secs(20)).map_err(|_| "the server thread did not come up".to_string())??;
+        match client_rt {
+            Rt::Smol => smol::block_on(async {
+                let futs = clients.iter().enumerate().map(|(c, ops)| {
+                    let path = path.clone();
+                    async move {
+                        let conn = zlink_smol::unix::connect(&path).await.map_err(|e| format!("client {c} connect: {e:?}"))?;
+                        served_client(conn, ops).await.map_err(|e| format!("client {c}: {e}"))
+                    }
+                });
+                futures_util::future::join_all(futs).await.into_iter().collect::<Result<Vec<()>, String>>().map(|_| ())
+            }),
+            rt => {
+                let rt = if rt == Rt::TokioMulti { tokio::runtime::Builder::new_multi_thread().worker_threads(3).enable_all().build() } else { tokio::runtime::Builder::new_current_thread().enable_all().build() }.map_err(|e| e.to_string())?;
+                rt.block_on(async {
+                    let futs = clients.iter().enumerate().map(|(c, ops)| {
+                        let path = path.clone();
+                        async move {
+                            let conn = zlink_tokio::unix::connect(&path).await.map_err(|e| format!("client {c} connect: {e:?}"))?;
+                            served_client(conn, ops).await.map_err(|e| format!("client {c}: {e}"))
+                        }
+                    });
+                    futures_util::future::join_all(futs).await.into_iter().collect::<Result<Vec<()>, String>>().map(|_| ())
+                })
+            }
+        }
+    })();
+    stop.store(true, Ordering::SeqCst);
+    let srv = server.join().map_err(|_| "server thread panicked".to_string());
+    let _ = std::fs::remove_file(&path);
+    outcome?;
+    srv??;
+    Ok((false, 0))
+}
+
 fn run_cancel(rt: Rt, size: usize, peer_reads: usize, second_size: usize) -> Result<(bool, usize), String> {
     let (a, peer) = StdUnixStream::pair().map_err(|e| e.to_string())?;
     let (received, partial) = match rt {
@@ -528,6 +937,61 @@ fn scenarios(ctx: &Ctx) -> Vec<Scenario> {
         let second_size = [5usize, 300, 70_000][((r >> 12) % 3) as usize];
         v.push(Scenario::Cancel { rt, size, peer_reads, second_size });
     }
+    let n_hist = ctx.tier.pick(24u64, 400);
+    for i in 0..n_hist {
+        let r = mix(ctx.seed ^ 0xC19C, i);
+        let rt = if i % 2 == 0 { Rt::TokioCurrent } else { Rt::Smol };
+        let n = 2 + (r % 5) as usize;
+        let mut steps: Vec<CancelStep> = (0..n)
+            .map(|k| {
+                let q = mix(r, 10 + k as u64);
+                let size = match q % 8 {
+                    0 | 1 => 1 + (q >> 8) as usize % 400,
+                    2 => 60_000 + (q >> 8) as usize % 20_000,
+                    3..=5 => 230_000 + (q >> 8) as usize % 200_000,
+                    6 => 450_000 + (q >> 8) as usize % 300_000,
+                    _ => 120_000 + (q >> 8) as usize % 60_000,
+                };
+                let polls = if (q >> 40) % 3 == 0 { None } else { Some(1 + ((q >> 44) % 4) as u8) };
+                let peer_reads = [0usize, 0, 1, 4096, 70_000, 250_000][((q >> 48) % 6) as usize];
+                CancelStep { size, polls, peer_reads }
+            })
+            .collect();
+        steps.last_mut().unwrap().polls = None;
+        v.push(Scenario::CancelHistory { rt, steps });
+    }
+    let n_served = ctx.tier.pick(24u64, 400);
+    for i in 0..n_served {
+        let r = mix(ctx.seed ^ 0x5E12, i);
+        let server_rt = if i % 2 == 0 { Rt::TokioCurrent } else { Rt::Smol };
+        let client_rt = [Rt::TokioCurrent, Rt::Smol, Rt::TokioMulti][((i / 2) % 3) as usize];
+        let transport = if (i / 6) % 2 == 0 { Transport::Bound } else { Transport::FromFd };
+        let n_clients = 1 + (r % 6) as usize;
+        let clients = (0..n_clients)
+            .map(|c| {
+                let r2 = mix(r, 50 + c as u64);
+                (0..1 + (r2 % 6) as usize)
+                    .map(|k| {
+                        let q = mix(r2, 300 + k as u64);
+                        let size = match (q >> 8) % 6 {
+                            0 | 1 => 1 + (q >> 16) as usize % 500,
+                            2 | 3 => 1000 + (q >> 16) as usize % 30_000,
+                            4 => 100_000 + (q >> 16) as usize % 100_000,
+                            _ => 230_000 + (q >> 16) as usize % 300_000,
+                        };
+                        match q % 8 {
+                            0..=2 => COp::Echo(size),
+                            3 => COp::Fail,
+                            4 => COp::Oneway(size.min(60_000)),
+                            5 | 6 => COp::Batch((0..1 + (q >> 40) as usize % 5).map(|j| 1 + (mix(q, j as u64) as usize) % 6000).collect()),
+                            _ => COp::Sub { n: 1 + ((q >> 44) % 5) as u32, size: size.min(120_000) },
+                        }
+                    })
+                    .collect()
+            })
+            .collect();
+        v.push(Scenario::Served { server_rt, client_rt, transport, clients });
+    }
     for (threads, per_thread) in [(2usize, 40_000usize), (8, 25_000), (16, 10_000)] {
         v.push(Scenario::Ids { threads, per_thread: ctx.tier.pick(per_thread, per_thread * 4) });
     }
@@ -550,6 +1014,8 @@ fn run_scenario(sc: &Scenario, tag: u64, deadline: Duration) -> Option<Result<(b
                 .map(|()| (false, 0)),
                 Scenario::Cancel { rt, size, peer_reads, second_size } => run_cancel(*rt, *size, *peer_reads, *second_size),
                 Scenario::Ids { threads, per_thread } => run_ids(*threads, *per_thread),
+                Scenario::CancelHistory { rt, steps } => run_cancel_history(*rt, steps),
+                Scenario::Served { server_rt, client_rt, transport, clients } => run_served(*server_rt, *client_rt, *transport, clients, tag),
             });
             let _ = tx.send(match r {
                 Ok(r) => r,
@@ -587,6 +1053,35 @@ fn classify(sc: &Scenario, stats: &mut Stats) -> bool {
             stats.class("ids:connections-constructed-on-several-threads-at-once");
             *threads >= 2
         }
+        Scenario::Served { server_rt, client_rt, transport, clients } => {
+            stats.class(&format!("served:server={server_rt:?},clients={client_rt:?}"));
+            stats.class(&format!("served:listener={transport:?}"));
+            if clients.len() >= 2 {
+                stats.class("served:>=2-clients");
+            }
+            let ops = || clients.iter().flatten();
+            if ops().any(|o| matches!(o, COp::Sub { .. })) {
+                stats.class("served:has-streaming-call");
+            }
+            if ops().any(|o| matches!(o, COp::Batch(b) if b.len() >= 2)) {
+                stats.class("served:has-pipelined-batch");
+            }
+            if ops().any(|o| matches!(o, COp::Oneway(_))) {
+                stats.class("served:has-oneway");
+            }
+            let big = ops().any(|o| matches!(o, COp::Echo(s) if *s > 212_992));
+            if big {
+                stats.class("served:call>208KiB");
+            }
+            clients.len() >= 2 && (big || ops().any(|o| matches!(o, COp::Sub { .. } | COp::Batch(_))))
+        }
+        Scenario::CancelHistory { rt, steps } => {
+            stats.class(&format!("cancel-history:{rt:?}"));
+            if steps.iter().filter(|s| s.polls.is_some()).count() >= 2 {
+                stats.class("cancel-history:>=2-abandoned-sends");
+            }
+            false
+        }
     }
 }
 
@@ -620,7 +1115,13 @@ pub fn run(ctx: &Ctx) -> i32 {
                     stats.class("deadline-expired(inconclusive)");
                 }
                 Some(Ok((partial_cancel, partial))) => {
-                    if partial_cancel {
+                    if partial_cancel && matches!(sc, Scenario::CancelHistory { .. }) {
+                        stats.class("cancel-history:abandoned-after-a-partial-write");
+                        if partial >= 2 {
+                            stats.class("cancel-history:>=2-abandons-after-partial-writes");
+                        }
+                        nt = true;
+                    } else if partial_cancel {
                         stats.class("cancelled-after-a-partial-write");
                         nt = true;
                     } else if let Scenario::Cancel { rt, size, .. } = sc {
@@ -629,11 +1130,12 @@ pub fn run(ctx: &Ctx) -> i32 {
                 }
                 Some(Err(msg)) => {
                     let sig = match sc {
-                        Scenario::Cancel { .. } => "send-cancelled-after-partial-write",
+                        Scenario::Cancel { .. } | Scenario::CancelHistory { .. } => "send-cancelled-after-partial-write",
                         Scenario::Ids { .. } => "connection-ids-not-distinct",
                         Scenario::Transfer { .. } if msg.contains("ids are not") => "connection-ids-not-distinct",
                         Scenario::Transfer { .. } if msg.contains("blocking mode") => "inherited-listener-left-blocking",
                         Scenario::Transfer { .. } => "transfer-lost-or-corrupted",
+                        Scenario::Served { .. } => "served-exchange-lost-or-corrupted",
                     };
                     viol.push(Violation { sig: sig.into(), lane: "scenario".into(), case: serde_json::to_value(sc).unwrap(), message: msg });
                 }
@@ -666,8 +1168,9 @@ pub fn replay(_lane: &str, case: serde_json::Value) -> Result<(), Fail> {
             Some(Ok(info)) => println!("round {round}: ok {info:?}"),
             Some(Err(m)) => {
                 let sig = match sc {
-                    Scenario::Cancel { .. } => "send-cancelled-after-partial-write",
+                    Scenario::Cancel { .. } | Scenario::CancelHistory { .. } => "send-cancelled-after-partial-write",
                     Scenario::Ids { .. } => "connection-ids-not-distinct",
+                    Scenario::Served { .. } => "served-exchange-lost-or-corrupted",
                     _ => "transfer-lost-or-corrupted",
                 };
                 return Err(Fail::new(sig, format!("round {round}: {m}")));
